@@ -272,7 +272,10 @@ def enumerate_sites(ctx, body):
         if t["t"] is None:
             # diverging call
             if "panicking" in nm or "panic" in nm or "unreachable" in nm or "assert_failed" in nm or "begin_panic" in nm or "expect_failed" in nm or "unwrap_failed" in nm:
-                out.append(Site(body, i, "panic", panic_message(body, i)[:80] or short_ty(nm), None, t))
+                msg = panic_message(body, i)[:80] or short_ty(nm)
+                if msg.startswith("assertion failed:"):
+                    msg = "assertion failed"        # the message quotes the source expression: not part of the key
+                out.append(Site(body, i, "panic", msg, None, t, {"message": panic_message(body, i)[:120]}))
             else:
                 out.append(Site(body, i, "panic", "diverging call " + short_ty(nm), None, t))
             continue
@@ -650,6 +653,24 @@ def d_cmp(site):
     return None
 
 
+def d_quota(site):
+    """`send_quota + 1` on an edge establishing send_quota != / < remote_receive_maximum: safe under the invariant
+    send_quota <= remote_receive_maximum <= 65535, which is what the QUOTA rules establish (linked)."""
+    if site.kind != "assert" or not site.extra["msg"].startswith("Overflow(Add)"):
+        return None
+    body = site.body
+    a, b = site.extra["ops"]
+    if body.fold(b) != 1:
+        return None
+    if not any(x[0] == "field" and x[2] == "send_quota" and (x[1] or "").endswith("Connection") for x in body.atoms(a)):
+        return None
+    from r_quota import _inc_guard
+    g = _inc_guard(body, site.bb)
+    if g:
+        return "D-linked[QUOTA-INC]: send_quota + 1 on the edge send_quota %s remote_receive_maximum (%s)" % (g[0][2], body.site(g[0][0]))
+    return None
+
+
 def load_ledger():
     p = os.path.join(VERIF, "rules", "panic_ledger.json")
     with open(p) as fh:
@@ -684,7 +705,7 @@ def discharge(ctx, site, ledger):
     r = d_derive(site)
     if r:
         return r
-    for f in (d_const, d_guard, d_memlen, d_len, d_cmp):
+    for f in (d_const, d_guard, d_memlen, d_len, d_cmp, d_quota):
         r = f(site)
         if r:
             return r
@@ -703,14 +724,17 @@ def panic_rule(ctx):
     reach, sites = all_sites(ctx)
     out = []
     used = set()
+    auto_links = set()
     for s_ in sites:
         r = discharge(ctx, s_, ledger)
         if r and r.startswith("ledger"):
             used.add(s_.key)
+        if r and r.startswith("D-linked["):
+            auto_links.add(r[len("D-linked["):].split("]")[0])
         out.append(Inst("PANIC", s_.key, r is not None, s_.site(), "%s site `%s` on %s: %s" % (s_.kind, s_.what, s_.prov or "-", r or "NOT discharged"),
                         "a dominating guard, a direct length comparison, constant folding, or a ledger entry with a reason"))
     import engine as _eng
-    links = sorted({ledger[k]["rule"] for k in used if ledger[k].get("rule")})
+    links = sorted({ledger[k]["rule"] for k in used if ledger[k].get("rule")} | auto_links)
     for l in links:
         if l not in _eng.RULES:
             out.append(Inst("PANIC", "ledger-link:%s" % l, False, "rules/panic_ledger.json", "ledger entries rely on rule %s, which does not exist" % l, "every linked rule is implemented"))
